@@ -1043,7 +1043,12 @@ class Interp:
             if fi is not None:
                 if fi.is_property:
                     self.ev("call", callee=fi.qualname, recv=o, args=[], kwargs={}, node=node, prop=True)
-                    return self.call_function(fi, [], {}, self_obj=o)
+                    v_ = self.call_function(fi, [], {}, self_obj=o)
+                    if fi.is_cached_property:
+                        # functools.cached_property: the first value is stored in the instance dict and answers every later read
+                        o.attrs[attr] = v_
+                        self.ev("obj_setattr", obj=o, attr=attr, value=v_, node=node)
+                    return v_
                 if fi.is_staticmethod:
                     return fi
                 return BoundMethod(o, fi)
